@@ -77,7 +77,8 @@ Proof. exact rt_literal. Qed.
 Print Assumptions C15_roundtrip_literal.
 
 (* paths: identifiers separated by '.', with any blanks around the dots; followed by something that does not
-   continue the last word and is not (after a blank) a dot *)
+   continue the last word and is not a path separator with an identifier after it ([pfollow]; a '.' that is not
+   followed by an identifier -- the double .5 after the path a -- ends the path before the '.') *)
 Theorem C15_roundtrip_path : forall lf whole, (length whole < lf)%nat -> forall p k,
   wf_path p = true -> pfollow lf k -> sfx (pr_path p k) whole ->
   p_path lf (pr_path p k) = POk k (erase_path p).
@@ -121,9 +122,10 @@ Proof. exact type_layout_free. Qed.
 Print Assumptions C15_layout_free_type.
 
 (* integer constants as spelled by the layout: any number of minus signs, decimal or 0x hexadecimal digits, magnitude
-   within i64; the value is positional notation, negated for an odd number of signs *)
+   within i64; the value is positional notation, negated for an odd number of signs.  [int_stops i k] (Print.v) is the
+   exact condition on the text k that follows: it does not continue the digits (nor turn the digit 0 into 0x..) *)
 Theorem C15_roundtrip_int : forall lf i k,
-  wf_int i = true -> nid k = true -> (length (pr_int i k) < lf)%nat ->
+  wf_int i = true -> int_stops i k = true -> (length (pr_int i k) < lf)%nat ->
   p_int_constant lf (pr_int i k) = POk k (erase_int i).
 Proof. exact rt_int. Qed.
 Print Assumptions C15_roundtrip_int.
@@ -131,16 +133,18 @@ Print Assumptions C15_roundtrip_int.
 (* double constants (the parser keeps the text): optional '-', optional '+', the three body forms, exponents that are
    integer constants *)
 Theorem C15_roundtrip_double : forall lf d k,
-  wf_dbl d = true -> nid k = true -> (length (pr_dbl d k) < lf)%nat ->
+  wf_dbl d = true -> dbl_stops d k = true -> (length (pr_dbl d k) < lf)%nat ->
   p_double_constant lf (pr_dbl d k) = POk k (erase_dbl d).
 Proof. exact rt_dbl. Qed.
 Print Assumptions C15_roundtrip_double.
 
 (* CONSTANT VALUES: ConstValue::parse with its eight alternatives, lists and maps nested to any depth, every blank slot,
-   separators ',' ';' or none between the elements.  [cvfollow]: a value that ends with a word or a number is followed by
-   (a blank and) something that does not continue it *)
+   separators ',' ';' or none between the elements -- incl. values that touch (5x is 5 and x, true.5 is true and .5,
+   0x1fg is 31 and g).  [cfollow]: the text after a value that ends with a word or a number does not continue it
+   ([cont_ok], Print.v: the exact longest-match condition), begins with an ASCII byte, and after a path is not a path
+   separator followed by an identifier *)
 Theorem C15_roundtrip_const_value : forall lf whole, (length whole < lf)%nat -> forall d v k,
-  (cv_depth v < d)%nat -> wf_const v = true -> cvfollow (const_ends_word v) (const_is_path v) k ->
+  (cv_depth v < d)%nat -> wf_const v = true -> cfollow lf v k ->
   sfx (pr_const v k) whole ->
   p_const_value lf d (pr_const v k) = POk k (erase_const v).
 Proof. exact rt_const. Qed.
@@ -160,7 +164,7 @@ Print Assumptions C15_roundtrip_typedef.
 
 Theorem C15_roundtrip_constant : forall lf whole, (length whole < lf)%nat -> forall df, (length whole < df)%nat -> forall eof c k,
   wf_constant eof c = true -> (eof = true -> k = []) -> nosep k = true ->
-  (tail_open (ck_tail c) = true -> stop k = true) -> (constant_ends_word c = true -> wstop k = true) ->
+  (tail_open (ck_tail c) = true -> stop k = true) -> (tail_bare (ck_tail c) = true -> cfollow lf (ck_val c) k) ->
   sfx (pr_constant c k) whole ->
   p_constant lf df (pr_constant c k) = POk k (erase_constant c).
 Proof. exact rt_constant. Qed.
@@ -211,7 +215,7 @@ Print Assumptions C15_roundtrip_namespace.
 
 (* the item dispatch (include, cpp_include, namespace, typedef, const, enum, struct, union, exception, service) *)
 Theorem C15_roundtrip_item : forall lf whole, (length whole < lf)%nat -> forall df, (length whole < df)%nat -> forall eof it k,
-  wf_item eof it = true -> item_follow eof it k -> sfx (pr_item it k) whole ->
+  wf_item eof it = true -> item_follow lf eof it k -> sfx (pr_item it k) whole ->
   p_item lf df (pr_item it k) = POk k (erase_item it).
 Proof. exact rt_item. Qed.
 Print Assumptions C15_roundtrip_item.
@@ -266,7 +270,7 @@ Print Assumptions C15_accepted_is_printed_const_value.
 Theorem C15_accepted_is_printed_field : forall lf df i r f, p_field lf df i = POk r f ->
   exists c, i = pr_field c r /\ erase_field c = f /\ (r <> [] -> ok_field c = true -> wf_field c = true) /\ noblank r /\
             (cf_sep c = SepNone -> nosep r = true) /\ dhead (pr_field c r) /\
-            (field_ends_word c = true -> cf_default c = None -> nid r = true).
+            (field_ends_word c = true -> hd_is is_digit r = false).
 Proof. exact field_inv. Qed.
 Print Assumptions C15_accepted_is_printed_field.
 
